@@ -88,11 +88,11 @@ theorem mapOK_heading (P) (codeOn : Bool) (ws : List Nat) : MapOK P (ruleHeading
     · rw [h'] at h; cases h; rfl
     · rw [h'] at h; cases h
 
-theorem mapOK_paragraph (terms : List BRule) (hin : ∀ t ∈ terms, SilentInert t) (ws : List Nat) :
-    MapOK TopCtx (ruleParagraph terms ws) := by
+theorem mapOK_paragraph (P : BState → Nat → Prop) (terms : List BRule) (hin : ∀ t ∈ terms, SilentInert t) (ws : List Nat) :
+    MapOK P (ruleParagraph terms ws) := by
   refine ⟨?_, ?_⟩
   · intro s line endLine s' hc h
-    obtain ⟨n, c, h1, h2, h'⟩ := paragraph_shape terms hin ws s line endLine hc
+    obtain ⟨n, c, h1, h2, h'⟩ := paragraph_shape P terms hin ws s line endLine hc
     rw [h'] at h; cases h
     refine ⟨?seg, ?heq, ?hmaps⟩
     case heq =>
@@ -106,7 +106,7 @@ theorem mapOK_paragraph (terms : List BRule) (hin : ∀ t ∈ terms, SilentInert
       · simp at hm; obtain ⟨rfl, rfl⟩ := hm; simp; omega
       · simp at hm
   · intro s line endLine s' hc h
-    obtain ⟨n, c, h1, h2, h'⟩ := paragraph_shape terms hin ws s line endLine hc
+    obtain ⟨n, c, h1, h2, h'⟩ := paragraph_shape P terms hin ws s line endLine hc
     rw [h'] at h; cases h
 
 theorem miniChain_mapOK (c : MiniCfg) (ws : List Nat) : ∀ r ∈ miniChain c ws, MapOK TopCtx r := by
@@ -125,7 +125,7 @@ theorem miniChain_mapOK (c : MiniCfg) (ws : List Nat) : ∀ r ∈ miniChain c ws
   · split at hr
     · simp at hr; subst hr; exact mapOK_heading _ _ _
     · cases hr
-  · subst hr; exact mapOK_paragraph _ (miniTerminators_inert c ws) ws
+  · subst hr; exact mapOK_paragraph _ _ (miniTerminators_inert c ws) ws
 
 /-- **C03.mini_staged** — the block tokens the modelled parse returns are staged inside the document:
 all maps in `[0, number of lines]`, non-empty, sibling blocks increasing and disjoint -/
